@@ -22,7 +22,7 @@ import xarray as xr
 import metricgrid as mg
 import copy
 
-from common import dyadic_array, enc_rat, exc_kind, frac, pos_len
+from common import dec_rat, dyadic_array, enc_rat, exc_kind, frac, pos_len
 
 RULE = ("grids of 1-3 axes with random position subsets; registry: per non-empty axis subset a random set of "
         "positions (complete / partial / only elsewhere / absent); every array position tuple; axis sets in "
@@ -211,6 +211,39 @@ def materialise(grid, ds, case, sel, like):
     return out
 
 
+def point_cells(data, metric, odims):
+    """per output point (row-major over the dimensions that are kept), the (value, weight) cells reduced into it"""
+    d, w = xr.broadcast(data.astype(float), metric.astype(float))
+    w = w.transpose(*d.dims)
+    keep = [x for x in d.dims if x not in odims]
+    red = [x for x in d.dims if x in odims]
+    n_keep = int(np.prod([d.sizes[x] for x in keep])) if keep else 1
+    dv = d.transpose(*keep, *red).values.reshape(n_keep, -1)
+    wv = w.transpose(*keep, *red).values.reshape(n_keep, -1)
+    return keep, dv, wv
+
+
+def model_arith(drv, what, keep, dv, wv, res):
+    """exact arithmetic of the Lean model (`c10arith`) against what the implementation returned; a float is
+    compared with the correctly rounded value of the exact quotient"""
+    def tok(x):
+        return "N" if x != x else enc_rat(x)
+    line = f"c10arith {what} {dv.shape[0]} " + " ".join(
+        f"{dv.shape[1]} " + " ".join(f"{tok(x) if what == 'average' else enc_rat(x)} {enc_rat(w)}" for x, w in zip(xs, ws))
+        for xs, ws in zip(dv, wv))
+    ans = drv.ask(line).split(" ")
+    got = np.asarray(res.transpose(*keep).values, dtype=float).reshape(-1)
+    if len(ans) != len(got):
+        return {"model": ans[:6], "impl": got[:6].tolist()}
+    for a, g in zip(ans, got):
+        if a == "div0":
+            if g == g and abs(g) != float("inf"):
+                return {"model": "div0", "impl": float(g)}
+        elif float(dec_rat(a)) != g:
+            return {"model": a, "impl": float(g)}
+    return None
+
+
 def eval_case(case, drv):
     if case.get("kind") == "interp_like":
         return eval_interp_like(case, drv)
@@ -315,6 +348,12 @@ def eval_case(case, drv):
             if not (eq(res, want) and eq(res2, want)):
                 prop_ok = False
                 detail["integrate"] = [res.values.tolist(), want.values.tolist()]
+            if corr_ok:
+                keep, dv, wv = point_cells(data, materialise(grid, ds, case, model_sel, data), odims)
+                bad = model_arith(drv, "integrate", keep, dv, wv, res)
+                if bad:
+                    corr_ok = False
+                    detail["integrate_model"] = bad
         elif prop_ok and op == "average":
             const = xr.full_like(data, 2.5, dtype=float)
             r1 = grid.average(const, arg)
@@ -325,6 +364,25 @@ def eval_case(case, drv):
             if not (ok1 and ok2):
                 prop_ok = False
                 detail["average"] = [r1.values.tolist(), r2.values.tolist(), want.values.tolist()]
+            if corr_ok:
+                # data with missing cells (some output points may have none left): the exact model value
+                holes = xr.DataArray(np.array([rr.random() < 0.3 for _ in range(data.size)]).reshape(data.shape), dims=data.dims)
+                dm = data.astype(float).where(~holes)
+                keep, dv, wv = point_cells(dm, materialise(grid, ds, case, model_sel, data), odims)
+                try:
+                    r3 = grid.average(dm, arg)
+                    bad = model_arith(drv, "average", keep, dv, wv, r3)
+                    # a constant field with the same holes averages to the constant wherever anything is left
+                    r4 = grid.average(xr.full_like(dm, 2.5).where(~holes), arg)
+                    left = (~holes).sum(odims) > 0
+                    if not bool(((r4 == 2.5) | ~left).all()) or bool((r4.notnull() & ~left).any()):
+                        prop_ok = False
+                        detail["average_const_with_holes"] = r4.values.reshape(-1)[:8].tolist()
+                except Exception as e:  # noqa: BLE001
+                    bad = {"impl": "err:" + exc_kind(e)}
+                if bad:
+                    corr_ok = False
+                    detail["average_model"] = bad
         elif prop_ok and op in ("derivative", "weighted") and len(req) == 1:
             ax = req[0]
             try:
@@ -336,6 +394,15 @@ def eval_case(case, drv):
                 res = grid.derivative(data, ax)
                 want = d / mres
                 ok = bool(np.allclose(res.transpose(*want.dims).values, want.values, rtol=1e-12, atol=0))
+                dd, mm = xr.broadcast(d.astype(float), mres.astype(float))
+                mm = mm.transpose(*dd.dims)
+                line = (f"c10arith derivative {dd.size} " + " ".join(enc_rat(x) for x in dd.values.reshape(-1))
+                        + f" {mm.size} " + " ".join(enc_rat(x) for x in mm.values.reshape(-1)))
+                ans_d = drv.ask(line).split(" ")
+                got_d = res.transpose(*dd.dims).values.reshape(-1)
+                if ans_d != ["div0"] and (len(ans_d) != len(got_d) or any(float(dec_rat(a)) != g for a, g in zip(ans_d, got_d))):
+                    corr_ok = False
+                    detail["derivative_model"] = {"model": ans_d[:6], "impl": got_d[:6].tolist()}
             else:
                 fn = rr.choice(["diff", "interp"])
                 res = getattr(grid, fn)(data, ax, metric_weighted=(ax,))
